@@ -6,6 +6,7 @@ import (
 	"bufio"
 	"bytes"
 	"context"
+	"crypto"
 	"crypto/ecdsa"
 	"crypto/elliptic"
 	"crypto/rand"
@@ -95,6 +96,27 @@ type kakResolver struct{ parties map[string]*party }
 
 func (r kakResolver) ResolveKeyByID(string, *resolver.ResolveMetadata, resolver.RelationType) (interface{}, error) {
 	return nil, errors.New("unused")
+}
+
+// sitResolver resolves keyAgreement keys for PAL.Encrypt with a scripted situation per DID.
+type sitResolver struct {
+	parties map[string]*party
+	sit     map[string]error
+}
+
+func (r sitResolver) ResolveKeyByID(string, *resolver.ResolveMetadata, resolver.RelationType) (crypto.PublicKey, error) {
+	return nil, errors.New("unused")
+}
+
+func (r sitResolver) ResolveKey(id did.DID, _ *time.Time, _ resolver.RelationType) (string, crypto.PublicKey, error) {
+	if err := r.sit[id.String()]; err != nil {
+		return "", nil, err
+	}
+	p := r.parties[id.String()]
+	if p == nil {
+		return "", nil, resolver.ErrNotFound
+	}
+	return p.kid, &p.key.PublicKey, nil
 }
 
 // decrypter holds the private keys a node has; a missing key yields crypto.ErrPrivateKeyNotFound like the real store.
@@ -464,6 +486,58 @@ func runPrivCase(t *testing.T, pc privCase) (res *privResult) {
 			res.Drift = append(res.Drift, "matching payload was not stored")
 		}
 		return res
+	case "Create":
+		// the REAL dag.PAL.Encrypt over a scripted key resolver: participant situations
+		sit := map[string]error{}
+		switch st.str("parts") {
+		case "one_deactivated":
+			sit[P.did.String()] = resolver.ErrDeactivated
+		case "all_deactivated":
+			sit[P.did.String()] = resolver.ErrDeactivated
+			sit[X.did.String()] = resolver.ErrNoActiveController
+		case "one_without_key":
+			sit[X.did.String()] = resolver.ErrKeyNotFound
+		case "one_unknown":
+			sit[X.did.String()] = resolver.ErrNotFound
+		}
+		addressees := []*party{P, X}
+		pal := dag.PAL{P.did, X.did}
+		epal, err := pal.Encrypt(sitResolver{parties: parties, sit: sit})
+		obs := "refused"
+		if err == nil {
+			// who can read the list, and what does it say?
+			readable := 0
+			complete := true
+			for _, a := range addressees {
+				for _, ct := range epal {
+					if pt, derr := nutsCrypto.EciesDecrypt(a.key, ct); derr == nil {
+						readable++
+						for _, b := range addressees {
+							if !bytes.Contains(pt, []byte(b.did.String())) {
+								complete = false
+							}
+						}
+						break
+					}
+				}
+			}
+			switch {
+			case len(epal) == 0:
+				obs = "no_list"
+				viol("private-transaction-created-without-list", "PAL.Encrypt returned an empty list for a transaction addressed to participants ("+st.str("parts")+"): the transaction would be created as a public one and its payload gossiped to everybody")
+			case readable < len(addressees) || !complete:
+				obs = "partial_list"
+				viol("private-transaction-with-incomplete-list", fmt.Sprintf("PAL.Encrypt succeeded although not every participant is a recipient (%s): %d of %d can read the list", st.str("parts"), readable, len(addressees)))
+			default:
+				obs = "encrypted_all"
+			}
+		}
+		res.Observed = obs
+		res.Trace = append(res.Trace, map[string]any{"ev": "create", "parts": st.str("parts"), "observed": obs, "err": fmt.Sprint(err)})
+		if obs != st.str("expect") && obs != "no_list" && obs != "partial_list" {
+			res.Drift = append(res.Drift, fmt.Sprintf("Create %s: model %s, code %s", st.str("parts"), st.str("expect"), obs))
+		}
+		return res
 	case "ReceiveList":
 		dec := decrypter{keys: map[string]*ecdsa.PrivateKey{H.kid: H.key}}
 		h := newHolder(t, dir, H.did, docResolver{parties}, dec)
@@ -474,6 +548,10 @@ func runPrivCase(t *testing.T, pc privCase) (res *privResult) {
 		tx := mkTx([]dag.Transaction{root}, 1, encryptPAL([]*party{H, P}, []*party{H, P}), payload)
 		if st.str("known") == "known_nopayload" {
 			_ = h.state.Add(context.Background(), tx, nil) // the private transaction is known, its payload not yet
+		}
+		if st.str("known") == "new_unaddable" {
+			// a correctly signed SECOND ROOT: passes parsing and the verifiers, refused inside the DAG's write transaction
+			tx = mkTx(nil, 0, encryptPAL([]*party{H, P}, []*party{H, P}), payload)
 		}
 		peer := transport.Peer{ID: "P", Address: "p:5555", Authenticated: true, NodeDID: P.did}
 		conn := &capConn{h: h, peer: peer}
@@ -517,6 +595,9 @@ func runPrivCase(t *testing.T, pc privCase) (res *privResult) {
 		// the property on the real store: every stored payload hashes to its key, and nothing but a matching payload is kept
 		if len(foreign) > 0 {
 			viol("payload-stored-under-foreign-hash", fmt.Sprintf("payload store holds bytes that do not hash to their key (%v) after a TransactionList with a %s payload for a %s transaction", foreign, st.str("incoming"), st.str("known")))
+		}
+		if storedWanted && !txStored {
+			viol("payload-stored-without-transaction", "the payload that came with a "+st.str("known")+" transaction is in the payload store although the transaction is not in the DAG")
 		}
 		if st.str("incoming") != "matching" && storedWanted {
 			viol("payload-stored-"+st.str("incoming"), "a "+st.str("incoming")+" payload delivered in a TransactionList was stored")
